@@ -11,7 +11,7 @@ from . import c02
 PROPERTY = "C03"
 LEVEL = "exploration"
 VARIANTS = ["fast"]
-RULE = ("all operation/scope sequences: locals space (ops on _a/_b: assign, private assign, private string/array, params, read; "
+RULE = ("all operation/scope sequences: locals space (ops on _a/_b: assign, private assign, private string/array, params with / without an input element, read; "
         "openers call/if/forEach/for/while/count/spawn) and globals space (ga/GA/Ga plain, get/setVariable on mission/ui namespace, "
         "allVariables; openers call/with-do/spawn) with <=3 ops + <=2 scopes (quick) / <=4 ops + <=3 scopes (thorough); "
         "non-trivial = program has at least one read after a write; distinct by sequence")
@@ -22,7 +22,7 @@ ASSUMPTIONS = [
 ]
 DEADLINE_S = {"quick": 420, "thorough": 1500}
 
-L_OPS = ["w", "pw", "ps", "pl", "pr", "r", "wb", "rb"]
+L_OPS = ["w", "pw", "ps", "pl", "pr", "pe", "r", "wb", "rb"]
 L_OPEN = ["call", "if", "foreach", "for", "while", "count", "spawn"]
 G_OPS = ["gw", "gr", "Gw", "Gr", "nsw", "nsr", "uiw", "uir", "av"]
 G_OPEN = ["call", "withui", "withmission", "spawn", "foreach"]
@@ -132,6 +132,10 @@ def build(case):
             out.append('[%d] params ["_a"]' % v)
             scope.vars["_a"] = v
             wrote[0] = True
+        elif o == "pe":
+            # no input element and no default: the name is still bound (to nil) in the CURRENT scope
+            out.append('[] params ["_a"]')
+            scope.vars["_a"] = None
         elif o in ("r", "rb"):
             name = "_a" if o == "r" else "_b"
             i = nid()
